@@ -330,7 +330,7 @@ func (g *gen) userType() *Spec {
 	return sAl(aliasOrder[g.r.Intn(len(aliasOrder))])
 }
 
-var plainTypeExprs = []string{"Any", "String", "Integer", "Integer[1,3]", "Integer[0]", "Undef", "Array[String]", "Optional[String]", "Type", "Callable"}
+var plainTypeExprs = []string{"Any", "String", "Integer", "Integer[1,3]", "Integer[0]", "Undef", "Array[String]", "Optional[String]", "Type"}
 
 // ptype: a random parameterized type; must: it has to mention a user type (and so travels by attributes)
 func (g *gen) ptype(depth int, must bool) *Spec {
